@@ -384,13 +384,13 @@ def run(prop, tier):
     res = C.Result(prop, tier)
     proof = C.proof_step(["Props/%s.v" % prop])
     proof["trusted"] = [
-        "model Audio/Region.v written by hand from AudioRegion (core.py); __getitem__ (with _check_convert_index), the seconds and milliseconds views and make_silence are translated from /repo on every run (harness/py2coq/misc.py, groups region / silence) and proved equal to the model for all bounds (TieRegion.v, TieSilence.v); the algebra (+, *, join, /, ==) is tied by correspondence (exhaustive small scope / seeded random)",
+        "model Audio/Region.v written by hand from AudioRegion (core.py); __getitem__ (with _check_convert_index), the seconds and milliseconds views and make_silence are translated from /repo on every run (harness/py2coq/misc.py, groups region / silence) and proved equal to the model for all bounds (TieRegion.v, TieSilence.v); _check_other_parameters, +, *, == and len() likewise (group algebra, TieAlgebra.v); join (a generator pipeline) and / (a while loop) are tied by correspondence (exhaustive small scope / seeded random / large-scale cases)",
         "extraction (ExtrOcamlBasic only) + OCaml driver, cross-checked by vm_compute on a sample",
         "Flocq binary64 for t*rate; float->int conversions defined on (mantissa, exponent) in Z",
     ]
     C.import_auditok()
     from ..py2coq import misctie
-    ties = [misctie.tie_group("region")] + ([misctie.tie_group("silence")] if prop == "C17" else [])
+    ties = [misctie.tie_group("region"), misctie.tie_group("algebra")] + ([misctie.tie_group("silence")] if prop == "C17" else [])
     proof["tie_obligations"] = [o for t in ties for o in t["obligations"]]
     proof["undischarged"] = [o for t in ties if not t["ok"] for o in t["obligations"]]
     with warnings.catch_warnings():
